@@ -1532,6 +1532,9 @@ func (r *pfRun) checkSlice(x *ssa.Slice, st *pfState) {
 		return
 	}
 	hi := r.evalInt(x.High, st)
+	if hi.base == "" && hi.off == 0 && lo.base == "" && lo.off == 0 {
+		return // x[:0] / x[0:0] is always in range
+	}
 	okHi, why := r.covered(st, S, hi, false)
 	if hi.base == "len:"+S && hi.off <= 0 && r.linNonNeg(st, hi) {
 		okHi, why = true, "upper bound is len-"+fmt.Sprint(-hi.off)
